@@ -35,9 +35,10 @@ _RC = [
     "hex_empty_value", "hex_len_65535", "hex_fixed_exact_cap", "hex_fixed_truncated_by_cap", "hex_invalid_digit_thrown", "hex_odd_length",
     "url_roundtrip", "url_high_bytes", "url_invalid_escape_thrown", "url_truncated_escape", "url_decode_valid",
     "crc16", "crc32", "sum8", "sum16_odd", "sum16_even",
+    "digest_large_inputs", "sum16_input_ge_128KiB", "sum16_word_sum_exceeds_2p32", "sum8_byte_sum_exceeds_2p16", "crc_input_ge_1MiB", "md5_input_ge_1MiB",
     "md5_multi_update", "md5_split_inside_block", "md5_split_on_block_edge", "md5_three_way_splits", "aes_cipher", "aes_invcipher",
 ]
-_RC_FUZZ = ["fuzz_execs_base64_decode", "fuzz_execs_hex_decode", "fuzz_execs_scalable_parse", "fuzz_execs_url_decode",
+_RC_FUZZ = ["fuzz_execs_checksum_large", "fuzz_sum16_word_sum_exceeds_2p32", "fuzz_execs_base64_decode", "fuzz_execs_hex_decode", "fuzz_execs_scalable_parse", "fuzz_execs_url_decode",
             "fuzz_execs_deserializer", "fuzz_execs_md5_split", "fuzz_execs_roundtrip", "fuzz_inputs_with_byte_ge_0x80"] if _FUZZ else []
 
 PROP = dict(
@@ -70,7 +71,10 @@ PROP = dict(
           "from the whole and from a cut input, with never-satisfiable size requests (remaining+1 .. SIZE_MAX) interleaved. "
           "url: UrlEncode in both modes on arbitrary bytes, UrlDecode of it and unquote_to_bytes of it must give the input back; hostile escapes; Url struct parsers for clean behaviour only. "
           "digest: CRC-16/CRC-32 with default and arbitrary seeds, 8/16-bit sums, MD5 fed as 1..7 pieces (zero-length pieces, cuts on and next to 64-byte edges), "
-          "AES-128 cipher/invcipher on two key/block pairs. md5split: every split of an n-byte message into three updates. "
+          "AES-128 cipher/invcipher on two key/block pairs. Every 500th digest case is a large input instead: 64 KiB..16 MiB (65535/65536/65537, 131074..131076, 262142..262146, "
+          "1 MiB, 1 MiB+1, 2 MiB-2, 4 MiB, 8 MiB+3, 16 MiB, random 4..16 MiB) filled with 0xFF / 0x00 / 0x80 / ff00 / 00ff / a random block of prime period / "
+          "a random high-valued block, described to the reference as (size, block) and pushed through both CRCs, both sums and MD5 (at once or in up to four big pieces); "
+          "sizes and fills are walked deterministically so every run meets 16-bit word sums above 2^32. md5split: every split of an n-byte message into three updates. "
           "A case is non-trivial when its input is non-empty; distinct = distinct hashes of the generated inputs (value, text, field list, pieces)."),
     assumptions=[
         "inputs are exactly sized heap blocks (an over-read of one byte is an AddressSanitizer report); std::string arguments are heap objects of exact capacity, "
